@@ -35,16 +35,16 @@ import (
 )
 
 type c20Fixture struct {
-	srv   *ircserver.IRCServer
-	o     *outputstream.OutputStream
-	st    *raftstore.LevelDBStore
-	h     *api.HTTP
-	fsm   *FSM
-	next  uint64
-	now   int64
-	a, b  robust.Id
+	srv            *ircserver.IRCServer
+	o              *outputstream.OutputStream
+	st             *raftstore.LevelDBStore
+	h              *api.HTTP
+	fsm            *FSM
+	next           uint64
+	now            int64
+	a, b           robust.Id
 	batchA, batchB uint64 // ids of inputs that produced an output batch (JOIN of a, JOIN of b)
-	spare *ircserver.IRCServer
+	spare          *ircserver.IRCServer
 }
 
 const c20Cfg = `SessionExpiration = "30m"
@@ -262,13 +262,13 @@ func c20Signature(report string) (string, string) {
 }
 
 type c20Violation struct {
-	Sig      string `json:"sig"`
-	Desc     string `json:"desc"`
-	Prop     string `json:"prop"`
-	Count    int    `json:"count"`
+	Sig      string    `json:"sig"`
+	Desc     string    `json:"desc"`
+	Prop     string    `json:"prop"`
+	Count    int       `json:"count"`
 	Pair     [2]string `json:"pair"`
-	Schedule []int  `json:"schedule"`
-	Report   string `json:"report"`
+	Schedule []int     `json:"schedule"`
+	Report   string    `json:"report"`
 }
 
 func TestVerifC20(t *testing.T) {
@@ -306,16 +306,16 @@ func TestVerifC20(t *testing.T) {
 	}
 	dir := t.TempDir()
 	type result struct {
-		Pairs       int             `json:"pairs"`
-		Executions  int             `json:"executions"`
-		Points      int             `json:"points"`
-		Truncated   int             `json:"pairs_truncated"`
-		Outcomes    map[string]int  `json:"outcomes"`
-		RacyPairs   int             `json:"pairs_with_race"`
-		Deadlocks   int             `json:"deadlocks_seen"`
-		Violations  []*c20Violation `json:"violations"`
-		Samples     []string        `json:"samples"`
-		Bound       int             `json:"preemption_bound"`
+		Pairs      int             `json:"pairs"`
+		Executions int             `json:"executions"`
+		Points     int             `json:"points"`
+		Truncated  int             `json:"pairs_truncated"`
+		Outcomes   map[string]int  `json:"outcomes"`
+		RacyPairs  int             `json:"pairs_with_race"`
+		Deadlocks  int             `json:"deadlocks_seen"`
+		Violations []*c20Violation `json:"violations"`
+		Samples    []string        `json:"samples"`
+		Bound      int             `json:"preemption_bound"`
 	}
 	res := &result{Outcomes: map[string]int{}, Bound: bound}
 	sigs := map[string]*c20Violation{}
